@@ -18,11 +18,15 @@ PROP = 'C15'
 GENERATED = ['ResultsTable']
 DRIVER = 'Drivers/C15.lean'
 DRIVER_MODULES = ['StarsimModel.Model.Results', 'StarsimModel.Model.Proto']
-RULE = ('generated sims: 60-250 agents, 4-10 steps, 1-2 of SIR/SIS (optionally on a coarser or finer timeline than the sim, '
-        'optionally with a name that contains a key of the summary table), 1-2 networks, deaths/pregnancy, population scale '
-        'given as nothing / integer pop_scale / float pop_scale / total_pop (integer or fractional ratio). '
-        'One case = one sim; distinct = distinct configuration; non-trivial = at least one death or infection was recorded '
-        'and at least one series is scaled by a factor != 1. Plus random validate_total_pop inputs and summary keys.')
+RULE = ('every run: 9 fixed scenario sims (cum_deaths witness; SIS + deaths with total_pop; module name containing n_; dying pregnant mother; '
+        'disease and births on a finer timeline than the sim (2); fractional factor 2.5 with births + deaths + ErdosRenyi + custom analyzer on a coarser '
+        'timeline + custom intervention; total_pop < n_agents with pregnancy, StaticNet and a coarser SIS; everybody dies) + generated sims: 60-250 agents, '
+        '4-10 steps, 1-2 of SIR/SIS (optionally on a coarser or finer timeline, optionally with a name containing a key of the summary table), 1-2 networks, '
+        'deaths / pregnancy / births (births on a finer timeline half of the time), optionally a custom analyzer / intervention declaring results via '
+        'define_results, population scale given as nothing / integer pop_scale / float pop_scale (incl. < 1) / total_pop (integer ratio, fractional ratio, '
+        'fewer people than agents). One case = one sim; distinct = distinct configuration; non-trivial = at least one death or infection recorded and a '
+        'factor != 1. Per sim: recount of every people / disease series from per-agent snapshots, population-flow machine, op machine (finalize, rates, '
+        'summary, exports). Plus random validate_total_pop inputs (incl. total_pop < n_agents).')
 TRUSTED = ['NumPy: count_nonzero / sum / cumsum / true division of int64 arrays; float64 product of an integer count and the scale factor is compared exactly when representable, else within 4 ulp (counted)',
            'sciris save/load, pandas DataFrame construction (values read back and compared with the arrays)']
 ASSUMPTIONS = ['the probe reads Arr.raw[auids] directly; that `auids` are the active agents is property C10/C11',
@@ -35,18 +39,21 @@ RTOL = 4 * 2.0 ** -52
 # ---------------------------------------------------------------------------
 # configurations
 
-SCALE_FORMS = ['none', 'pop_scale_int', 'pop_scale_float', 'total_pop_int', 'total_pop_frac']
+SCALE_FORMS = ['none', 'pop_scale_int', 'pop_scale_float', 'total_pop_int', 'total_pop_frac', 'total_pop_small']
 TRICKY_NAMES = ['strain_a', 'sin_x', 'newvar_b', 'main_z']
 
 
 def gen_cfg(rng, tricky=0.25, timelines=0.5, forms=None):
     cfg = impl.gen_sim_config(rng, small=True, allow_global_readers=False)
-    # ErdosRenyiNet + deaths is not reproducible run to run (edges built from array positions, C14 finding): twins and
-    # probed/unprobed runs would differ for reasons that are not C15's
-    nets = [n for n in cfg['networks'] if n['type'] != 'erdosrenyi']
-    if not any(n['type'] != 'maternal' for n in nets):
-        nets.insert(0, dict(type='random', n_contacts=4, dur=0))
-    cfg['networks'] = nets
+    # births (global-generator reader; run_probed seeds np.random, so twins stay comparable), sometimes on a finer timeline
+    if not any(d['type'] == 'pregnancy' for d in cfg['demographics']) and rng.random() < 0.35:
+        b = dict(type='births', birth_rate=rng.choice([30, 80, 200]))
+        if rng.random() < 0.5:
+            b.update(unit=cfg['unit'], dt=cfg['dt'] / rng.choice([2, 4]) if cfg['unit'] == 'year' else 1.0)
+        cfg['demographics'] = [b] + cfg['demographics']
+    # a custom analyzer / intervention declaring its own results (the scale rule applies to them too), sometimes on its own timeline
+    if rng.random() < 0.5:
+        cfg['custom'] = [dict(kind=rng.choice(['analyzer', 'intervention']), dt_mult=rng.choice([None, None, 2]))]
     # own timelines for the diseases
     for d in cfg['diseases']:
         if rng.random() < timelines:
@@ -63,9 +70,10 @@ def gen_cfg(rng, tricky=0.25, timelines=0.5, forms=None):
     n = cfg['n_agents']
     cfg['scale_form'] = form
     if form == 'pop_scale_int': cfg['pop_scale'] = rng.choice([2, 7, 10])
-    elif form == 'pop_scale_float': cfg['pop_scale'] = rng.choice([2.5, 0.5, 7.0, 3.3])
+    elif form == 'pop_scale_float': cfg['pop_scale'] = rng.choice([2.5, 0.5, 7.0, 3.3, 0.125])
     elif form == 'total_pop_int': cfg['total_pop'] = n * rng.choice([3, 7, 20])
     elif form == 'total_pop_frac': cfg['total_pop'] = rng.choice([1000, 3500, 12345])
+    elif form == 'total_pop_small': cfg['total_pop'] = rng.choice([n // 2, n // 8, n - 1])   # fewer people than agents: factor < 1
     return cfg
 
 
@@ -102,8 +110,47 @@ def build(cfg, scale=True, **over):
         else:
             dem.append(impl._demog(d))
     if dem: pars['demographics'] = dem
+    for c in cfg.get('custom', []):
+        cls = custom_class(c['kind'])
+        kw = dict(dt=cfg['dt'] * c['dt_mult']) if c.get('dt_mult') else {}
+        pars.setdefault('analyzers' if c['kind'] == 'analyzer' else 'interventions', []).append(cls(**kw))
     pars.update(over)
     return ss.Sim(**pars)
+
+
+_CUSTOM = {}
+
+
+def custom_class(kind):
+    """ A user-style module that declares results through define_results: an integer count (scale left at its default),
+        a cumulative count, and two float results declared with scale=False """
+    import starsim as ss
+    if kind in _CUSTOM: return _CUSTOM[kind]
+    base = ss.Analyzer if kind == 'analyzer' else ss.Intervention
+
+    class Tally(base):
+        def init_results(self):
+            super().init_results()
+            self.define_results(ss.Result('n_seen', dtype=int), ss.Result('new_adults', dtype=int, scale=True),
+                                ss.Result('cum_adults', dtype=int, scale=True),
+                                ss.Result('frac_adult', dtype=float, scale=False), ss.Result('mean_age', dtype=float, scale=False))
+
+        def step(self):
+            ppl = self.sim.people; ti = self.ti
+            au = np.asarray(ppl.auids)
+            alive = np.asarray(ppl.alive.raw[au]).astype(bool); age = np.asarray(ppl.age.raw[au])
+            r = self.results
+            r['n_seen'][ti] = int(alive.sum())
+            r['new_adults'][ti] = int(np.count_nonzero(alive & (age >= 18) & (age < 18 + 1)))
+            r['cum_adults'][ti] = np.sum(r['new_adults'][:ti + 1])
+            r['frac_adult'][ti] = float(np.count_nonzero(alive & (age >= 18))) / max(int(alive.sum()), 1)
+            r['mean_age'][ti] = float(age[alive].mean()) if alive.any() else 0.0
+
+    name = 'C15Tally' + kind.capitalize()
+    Tally.__name__ = name; Tally.__qualname__ = name; Tally.__module__ = __name__
+    globals()[name] = Tally
+    _CUSTOM[kind] = Tally
+    return Tally
 
 
 # ---------------------------------------------------------------------------
@@ -115,13 +162,19 @@ def run_probed(cfg, scale=True, probe=True):
     np.random.seed(cfg.get('rand_seed', 1) % 2**31)   # some modules read the global generator (C01 findings): make twins comparable
     sim = build(cfg, scale=scale)
     sim.init()
-    rec = dict(people=[], diseases={}, births=[])
+    rec = dict(people=[], diseases={}, mods={}, n0=int(sim.people.uid.len_used), n_agents=int(sim.pars.n_agents))
     ppl = sim.people
 
     def snap_people():
         au = np.asarray(ppl.auids).copy()
         rec['people'].append(dict(ti=int(sim.ti), alive=np.asarray(ppl.alive.raw[au]).copy(),
-                                  ti_dead=np.asarray(ppl.ti_dead.raw[au]).copy(), auids=au, n_uids=int(len(ppl.uid.raw[:ppl.uid.len_used]) if hasattr(ppl.uid, 'len_used') else len(au))))
+                                  ti_dead=np.asarray(ppl.ti_dead.raw[au]).copy(), auids=au, n_uids=int(ppl.uid.len_used)))
+
+    def snap_module(mod):
+        au = np.asarray(ppl.auids)
+        rec['mods'].setdefault(mod.name, dict(cls=type(mod).__name__, snaps=[]))['snaps'].append(
+            dict(ti=int(mod.ti), sim_ti=int(sim.ti), n_uids=int(ppl.uid.len_used), n_alive=int(np.count_nonzero(ppl.alive.raw[au])),
+                 counters={k: int(getattr(mod, k)) for k in ('n_births', 'n_deaths', 'n_pregnancies') if hasattr(mod, k)}))
 
     def snap_disease(mod):
         au = np.asarray(ppl.auids).copy()
@@ -143,6 +196,8 @@ def run_probed(cfg, scale=True, probe=True):
                 funcs[i] = (lambda f=f: (snap_people(), f())[1])
             elif isinstance(owner, ss.Infection):
                 funcs[i] = (lambda f=f, o=owner: (snap_disease(o), f())[1])
+            elif isinstance(owner, ss.Demographics):
+                funcs[i] = (lambda f=f, o=owner: (snap_module(o), f())[1])
         plan['func'] = funcs
     raw = {}
     meta = {}
@@ -260,6 +315,8 @@ def sim_lines(rec, facts):
         mod = module_of(sim, m['module'])
         mro = [c.__name__ for c in type(mod).__mro__] if mod is not None else ['Sim']
         row = table_row(facts, mro, m['name'])
+        if row is None and mro[0].startswith('C15Tally'):
+            row = (m['scale'], 'float' if m['dtype'].startswith('float') else 'int', mro[0])   # declared by the harness itself
         if row is None:
             continue
         if (row[2], m['name']) in EXCLUDE_DERIVED:
@@ -275,6 +332,10 @@ def sim_lines(rec, facts):
             vals = [v if v is not None else '0' for v in vals]
         lines.append(f"sim writes {key} {','.join(vals)}")
     lines += ['sim view', 'sim tojson', 'sim finalize', 'sim view', 'sim summary', 'sim finalize', 'sim shrink', 'sim saveload', f"sim write {keys[0]} 0 1"]
+    # rates that finalize computes from the (already scaled) final store
+    for sp in rate_specs(rec):
+        if sp['new'] in keys and 'n_alive' in keys:
+            lines.append(f"sim rate {sp['key']} {sp['new']} n_alive {rat(sp['units'])} {','.join(map(str, sp['inds'])) if sp['inds'] else '-'}")
     return lines, keys
 
 
@@ -326,7 +387,12 @@ def exports(sim):
                 key = c if modname == 'sim' else f'{modname}_{c}'
                 d[key] = np.asarray(sub[c].values)
     out['to_df'] = d
-    js = sim.to_json(keys='summary')   # (the `pars` part is not a C15 matter)
+    try:
+        js = sim.to_json()
+    except Exception as e:     # the `pars` half can fail to serialise (known finding: StaticNet keeps a Generator in pars.seed)
+        out['to_json_error'] = type(e).__name__
+        out['to_json_static'] = any(type(n).__name__ == 'StaticNet' for n in sim.networks())
+        js = sim.to_json(keys='summary')
     out['to_json_summary'] = {k: v for k, v in js['summary'].items()} if isinstance(js.get('summary'), dict) else None
     out['summary'] = {k: v for k, v in sim.summary.items()}
     sh = sim.shrink(inplace=False)
@@ -434,6 +500,24 @@ def correspond_sim(ctx, cfg, facts):
     if div:
         ctx.broke('correspondence', 'C15.summary', f'sim.summary differs from the model: {div}', data=cfg)
         return rec
+    # rates computed by the model from ITS final store vs the arrays
+    for ln, oo in zip(sl[len(keys) + 10:], o[9:]):
+        key = ln.split()[2]
+        vals = oo[3:].split(',') if oo.startswith('ok ') else None
+        if vals is None or len(vals) != len(final[key]):
+            div = div or f'{key}: model answered {oo[:60]}'
+            continue
+        for i, (a, b) in enumerate(zip(final[key], vals)):
+            if b == 'u':
+                ctx.count('rate_undefined_entries'); continue
+            ok, tol = close(float(a), F(b), 6)
+            if tol: ctx.count('tolerance_uses')
+            if not ok:
+                div = div or f'{key}[{i}]: impl={float(a)!r} model={float(F(b))!r}'
+        ctx.count('rate_series_opmachine')
+    if div:
+        ctx.broke('correspondence', 'C15.rates', f'rates computed in finalize differ from the model (new / n_alive[inds] / units on the scaled store): {div}', data=cfg)
+        return rec
     # second finalize, writes after completion
     try:
         sim.finalize(); second = 'accepted'
@@ -477,6 +561,8 @@ def correspond_sim(ctx, cfg, facts):
         mod = module_of(sim, mta['module'])
         mro = [c.__name__ for c in type(mod).__mro__] if mod is not None else ['Sim']
         row = table_row(facts, mro, mta['name'])
+        if row is None and mro[0].startswith('C15Tally'):
+            continue
         if row is None:
             ctx.broke('extract', 'ResultsTable', f'result {key} of the live sim has no row in the extracted table', data=cfg); break
         if bool(row[0]) != mta['scale']:
@@ -489,6 +575,105 @@ def correspond_sim(ctx, cfg, facts):
     ctx.count('series_compared', len(keys))
     ctx.count('form_' + cfg['scale_form'])
     return rec
+
+
+# ---------------------------------------------------------------------------
+# flows (agents created / removed) and the rates computed in finalize
+
+def pop_steps(rec):
+    """ Reconstruct, from the people snapshots alone, the inputs of the model's population machine: per sim step the number
+        of agents created and which positions had their death requested before / after the recording.
+        Returns (steps, observed) or (None, reason) when a death is not of one of these kinds (scheduled in the future). """
+    act = list(range(rec['n0']))
+    steps = []; obs = []
+    prev_pos = {}
+    for t, s in enumerate(rec['people']):
+        if s['ti'] != t: return None, f'people recording {t} has ti={s["ti"]}'
+        au = s['auids'].tolist()
+        if au[:len(act)] != act or any(u <= (act[-1] if act else -1) for u in au[len(act):]):
+            return None, f'step {t}: active uids are not the survivors of the previous step followed by new uids'
+        born = len(au) - len(act)
+        req = []
+        for i, (a, d) in enumerate(zip(s['alive'].tolist(), s['ti_dead'].tolist())):
+            if not a:
+                if d == t: req.append(i)
+                elif d == t - 1 and au[i] in prev_pos: steps[-1]['late'].append(prev_pos[au[i]])
+                else: return None, f'step {t}: agent {au[i]} is dead with ti_dead={d}'
+            elif d == d and d > t:
+                return None, f'scheduled: step {t}: agent {au[i]} is alive with ti_dead={d} (death scheduled ahead)'
+            elif d == d:
+                return None, f'step {t}: agent {au[i]} is still alive at the recording although ti_dead={d} <= {t} (step_die resolves ti_dead <= ti before the recording)'
+        steps.append(dict(born=born, req=req, late=[]))
+        obs.append(dict(nalive=int(np.count_nonzero(s['alive'])), removed=int(np.count_nonzero(~s['alive'].astype(bool))),
+                        bits=''.join('1' if a else '0' for a in s['alive'].tolist())))
+        prev_pos = {u: i for i, u in enumerate(au)}
+        act = [u for u, a in zip(au, s['alive'].tolist()) if a]
+    return steps, obs
+
+
+def pop_line(rec, steps):
+    f = lambda l: ','.join(map(str, l)) if l else '-'
+    return f"pop {rec['n0']} " + '|'.join(f"{st['born']};{f(st['req'])};{f(sorted(st['late']))}" for st in steps)
+
+
+def rate_specs(rec):
+    """ (key, units, new key, inds) for the rates that finalize computes from already scaled series """
+    sim = rec['sim']; out = []
+    for mod in sim.modules:
+        cls = type(mod).__name__
+        if cls == 'Deaths': key, newkey = f'{mod.name}_cmr', f'{mod.name}_new'
+        elif cls == 'Pregnancy': key, newkey = f'{mod.name}_cbr', f'{mod.name}_births'
+        else: continue
+        inds = mod.match_time_inds()
+        inds = None if inds is Ellipsis else [int(i) for i in np.asarray(inds).ravel()]
+        out.append(dict(key=key, new=newkey, units=float(mod.pars.rate_units * sim.t.dt_year), inds=inds))
+    return out
+
+
+def correspond_flows(ctx, cfg, rec):
+    sim = rec['sim']; raw = rec['raw']
+    final = {k: np.asarray(v.values) for k, v in sim.results.flatten().items()}
+    lines = []; kinds = []
+    steps, obs = pop_steps(rec)
+    if steps is None and not str(obs).startswith('scheduled'):
+        ctx.broke('correspondence', 'C15.flows', f'population flows cannot be produced by the model machine: {obs}', data=cfg); return
+    if steps is None:
+        ctx.count('pop_not_modelled')
+    else:
+        lines.append(pop_line(rec, steps)); kinds.append('pop')
+    specs = rate_specs(rec)
+    for sp in specs:
+        lines.append(f"rate {rat(sp['units'])} {','.join(rat(v) for v in final[sp['new']])} {','.join(rat(v) for v in final['n_alive'])} "
+                     f"{','.join(map(str, sp['inds'])) if sp['inds'] else '-'}")
+        kinds.append(sp)
+    if not lines: return
+    out = ctx.drive(DRIVER, lines)
+    for kind, ln, o in zip(kinds, lines, out):
+        if not o.startswith('ok'):
+            ctx.broke('correspondence', 'C15.flows', f'driver answered {o[:60]} to `{ln[:80]}`', data=cfg); return
+        if kind == 'pop':
+            m = kv(o)
+            want = dict(nalive=','.join(str(x['nalive']) for x in obs), removed=','.join(str(x['removed']) for x in obs),
+                        newdeaths=','.join(str(int(v)) for v in raw['new_deaths'][:len(obs)]), alive='|'.join(x['bits'] for x in obs))
+            for k, v in want.items():
+                if m.get(k) != v:
+                    ctx.broke('correspondence', 'C15.flows', f'population flows: {k} impl={v[:120]} model={str(m.get(k))[:120]} (steps {steps})', data=cfg); return
+            if [int(v) for v in raw['n_alive'][:len(obs)]] != [x['nalive'] for x in obs]:
+                ctx.broke('correspondence', 'C15.flows', 'n_alive differs from the snapshot count', data=cfg); return
+            ctx.count('pop_histories'); ctx.count('pop_late_requests', sum(len(st['late']) for st in steps)); ctx.count('pop_born', sum(st['born'] for st in steps))
+        else:
+            vals = o[3:].split(',') if len(o) > 3 else []
+            got = final[kind['key']]
+            if len(vals) != len(got):
+                ctx.broke('correspondence', 'C15.rates', f"{kind['key']}: length impl={len(got)} model={len(vals)}", data=cfg); return
+            for i, (a, b) in enumerate(zip(got, vals)):
+                if b == 'u':
+                    ctx.count('rate_undefined_entries'); continue      # n_alive == 0: np.divide(where=...) leaves the entry unspecified
+                ok, tol = close(float(a), F(b), 4)
+                if tol: ctx.count('tolerance_uses')
+                if not ok:
+                    ctx.broke('correspondence', 'C15.rates', f"{kind['key']}[{i}]: impl={float(a)!r} model={float(F(b))!r} (new / n_alive / units computed in finalize)", data=cfg); return
+            ctx.count('rate_series')
 
 
 def vtp_impl(n, tp, ps):
@@ -508,8 +693,8 @@ def correspond_vtp(ctx):
     for _ in range(ctx.budget(60, 400)):
         n = ctx.rng.choice([1, 7, 60, 100, 150, 250, 1000])
         form = ctx.rng.choice(['tp', 'ps', 'both', 'none'])
-        tp = ctx.rng.choice([n * 3, 1000, 3500, 12345.5, n]) if form in ('tp', 'both') else None
-        ps = ctx.rng.choice([1, 2, 7, 2.5, 0.5, 3.3]) if form in ('ps', 'both') else None
+        tp = ctx.rng.choice([n * 3, 1000, 3500, 12345.5, n, n / 2, n / 8, max(n - 1, 1), 1]) if form in ('tp', 'both') else None
+        ps = ctx.rng.choice([1, 2, 7, 2.5, 0.5, 3.3, 0.125]) if form in ('ps', 'both') else None
         cases.append((n, tp, ps))
     lines = [f"vtp {n} {'none' if tp is None else rat(tp)} {'none' if ps is None else rat(ps)}" for n, tp, ps in cases]
     out = ctx.drive(DRIVER, lines)
@@ -539,11 +724,14 @@ def correspond(ctx):
     if bool(r0.scale) != facts['result_defaults']['scale']:
         ctx.broke('extract', 'ResultsTable', 'default scale flag of ss.Result differs from the extracted default')
     correspond_vtp(ctx)
-    n = ctx.budget(20, 110)
-    for i in range(n):
-        cfg = gen_cfg(ctx.rng)
+    n = ctx.budget(16, 100)
+    scen = [copy.deepcopy(c) for c in FIXED_CFGS + FINE_TIMELINE_CFGS + SCENARIO_CFGS]
+    for i in range(len(scen) + n):
+        cfg = scen[i] if i < len(scen) else gen_cfg(ctx.rng)
         try:
-            correspond_sim(ctx, cfg, facts)
+            rec = correspond_sim(ctx, cfg, facts)
+            if rec is not None and not ctx.broken:
+                correspond_flows(ctx, cfg, rec)
         except impl_errors() as e:
             ctx.broke('correspondence', 'C15.run', f'generated sim raised {type(e).__name__}: {e}', data=cfg)
         if len(ctx.broken) >= 3:
@@ -581,21 +769,65 @@ def oracle_sim(cfg, twin=True, check_exports=True):
     if cfg.get('total_pop') is not None and not (k == cfg['total_pop'] / n and sim.pars.total_pop == cfg['total_pop']):
         fail(sig(oracle='pop-scale', form='total_pop'), f"total_pop={cfg['total_pop']} n_agents={n}: pars have pop_scale={k} total_pop={sim.pars.total_pop}")
     # O1 people counts and death flow
-    prev_alive = None
-    for s in rec['people']:
+    prev_td = None
+    for s_i, s in enumerate(rec['people']):
         ti = s['ti']
+        if s_i > 0:
+            ps = rec['people'][s_i - 1]
+            prev_td = dict(zip(ps['auids'].tolist(), ps['ti_dead'].tolist()))
         na = int(np.count_nonzero(s['alive']))
         if raw['n_alive'][ti] != na:
             fail(sig(oracle='count', owner='sim', result='n_alive'), f'n_alive[{ti}]={raw["n_alive"][ti]} but {na} active agents are alive when it is recorded')
         # independent death flow: active agents not alive now (dead agents are removed at the end of every step)
         nd = int(np.count_nonzero(~s['alive'].astype(bool)))
         if raw['new_deaths'][ti] != nd:
-            late = int(np.count_nonzero((~s['alive'].astype(bool)) & (s['ti_dead'] < ti)))
-            if late and raw['new_deaths'][ti] + late == nd:
+            late_mask = (~s['alive'].astype(bool)) & (s['ti_dead'] < ti)
+            late = int(np.count_nonzero(late_mask))
+            # requested after the previous recording: at that recording the agent was alive with ti_dead still unset
+            after_rec = prev_td is not None and all((u in prev_td and prev_td[u] != prev_td[u]) for u in s['auids'][late_mask].tolist())
+            if late and after_rec and raw['new_deaths'][ti] + late == nd:
                 fail(sig(oracle='death-flow', cause='requested-after-resolution'),
                      f'step {ti}: {nd} agents died but new_deaths={raw["new_deaths"][ti]}: {late} death(s) requested after the previous death resolution (ti_dead={ti - 1}) are carried out now and never counted')
             else:
                 fail(sig(oracle='death-flow', cause='other'), f'step {ti}: {nd} active agents became dead but new_deaths[{ti}]={raw["new_deaths"][ti]}')
+    # O4 creation flow: agents created per sim step (growth of the uid range between people recordings) = recorded birth flows
+    growers = {nm: info for nm, info in rec['mods'].items() if info['cls'] in ('Births', 'Pregnancy')}
+    if growers:
+        prev_n = rec['n_agents']      # agents created during init (burn-in conceptions) are recorded at step 0
+        for s in rec['people']:
+            ti = s['ti']; created = s['n_uids'] - prev_n; prev_n = s['n_uids']
+            flow = 0; parts = []
+            for nm, info in growers.items():
+                key = f'{nm}_new' if info['cls'] == 'Births' else f'{nm}_pregnancies'
+                v = sum(int(raw[key][ms['ti']]) for ms in info['snaps'] if ms['sim_ti'] == ti)
+                flow += v; parts.append(f'{key}={v}')
+            if flow != created:
+                fail(sig(oracle='creation-flow', growers='+'.join(sorted(i['cls'] for i in growers.values()))),
+                     f'sim step {ti}: {created} agents were created (uid range grew to {s["n_uids"]}) but the recorded flows give {flow} ({", ".join(parts)})')
+        for nm, info in growers.items():
+            if info['cls'] != 'Births': continue
+            mod = module_of(sim, nm)
+            for ms in info['snaps']:
+                if ms['n_alive'] == 0: continue
+                want = (1.0 / mod.pars.rate_units) * (ms['counters'].get('n_births', 0) / sim.t.dt_year) / ms['n_alive']
+                got = raw[f'{nm}_cbr'][ms['ti']]
+                if not (got == want or abs(got - want) <= 1e-12 * abs(want)):
+                    fail(sig(oracle='rate-value', result='cbr', owner='Births'), f'{nm}.cbr[{ms["ti"]}]={got!r} but births/year/alive/rate_units = {want!r}')
+    # rates computed in finalize: new / n_alive / units wherever n_alive > 0
+    for sp in rate_specs(rec):
+        new = np.asarray(final[sp['new']], dtype=float); al = np.asarray(final['n_alive'], dtype=float)
+        if sp['inds'] is not None: al = al[sp['inds']]
+        got = np.asarray(final[sp['key']], dtype=float)
+        for i in range(len(got)):
+            if i < len(al) and al[i] == 0 and not (got[i] == 0 or got[i] != got[i]):
+                fail(sig(oracle='rate-undefined', result=sp['key'].split('_')[-1]),
+                     f"{sp['key']}[{i}]={got[i]!r} although n_alive is 0 at that step: np.divide(new, n_alive, where=n_alive>0) without out= leaves the entry uninitialised (arbitrary, differs from run to run)")
+            if i < len(al) and al[i] > 0:
+                want = new[i] / al[i] / sp['units']
+                if not (got[i] == want or abs(got[i] - want) <= 1e-12 * abs(want)):
+                    fail(sig(oracle='rate-value', result=sp['key'].split('_')[-1], owner=sp['key'].split('_')[0]),
+                         f"{sp['key']}[{i}]={got[i]!r} but {sp['new']}/n_alive/units = {new[i]}/{al[i]}/{sp['units']} = {want!r}")
+                    break
     # O2/O3 diseases
     for dn, info in rec['diseases'].items():
         ii = info['states'].index('infected')
@@ -666,6 +898,11 @@ def oracle_sim(cfg, twin=True, check_exports=True):
         if m['scale'] and r.dtype.kind == 'f' and k != 1:
             fail(sig(oracle='scaled-rate', cls=defining_class(mod, m['name']), result=m['name']),
                  f'{key} is a float-valued (rate / mean / prevalence) result but is multiplied by pop_scale={k!r} (Result declared without scale=False)')
+    undefined_at = {}
+    for sp in rate_specs(rec):
+        al = np.asarray(final['n_alive'], dtype=float)
+        if sp['inds'] is not None: al = al[sp['inds']]
+        undefined_at[sp['key']] = np.nonzero(al[:len(final[sp['key']])] == 0)[0]
     if twin and k != 1:
         rec1 = run_probed(cfg, scale=False, probe=False)
         f1 = {kk: np.asarray(v.values) for kk, v in rec1['sim'].results.flatten().items()}
@@ -676,6 +913,8 @@ def oracle_sim(cfg, twin=True, check_exports=True):
             if key not in f1: continue
             m = meta[key]
             a = np.asarray(f1[key], dtype=float); b = np.asarray(final[key], dtype=float)
+            if key in undefined_at:      # entries of a finalize-computed rate where nobody is alive are unspecified (reported separately)
+                a = a.copy(); b = b.copy(); a[undefined_at[key]] = 0; b[undefined_at[key]] = 0
             mod = module_of(sim, m['module'])
             rate_like = np.asarray(raw[key]).dtype.kind == 'f'
             with np.errstate(all='ignore'):
@@ -725,6 +964,9 @@ def oracle_sim(cfg, twin=True, check_exports=True):
             lv = ex['load_summary'].get(key)
             if not (lv == v or (lv != lv and v != v)):
                 fail(sig(oracle='export', via='load-summary'), f'loaded summary[{key}]={lv!r} differs from {v!r}'); break
+        if ex.get('to_json_error'):
+            fail(sig(oracle='export', via='to_json-full', error=ex['to_json_error'], cause='StaticNet' if ex['to_json_static'] else 'other'),
+                 f"sim.to_json() raises {ex['to_json_error']} instead of exporting" + (': a StaticNet keeps its np.random.Generator in pars.seed after init, and sc.jsonify cannot handle the 128-bit state integers of its reduced form (np.isnan on a Python int that does not fit a float)' if ex['to_json_static'] else ''))
         if ex['load_refinalize'] != 'AlreadyRunError':
             fail(sig(oracle='finalize-once', via='load'), f"finalize() on a saved+loaded finished sim was {ex['load_refinalize']}: the scale factor is applied again")
         try:
@@ -764,6 +1006,10 @@ def oracle_guards():
     c = ss.Sim(n_agents=100, verbose=0); c.init()
     if not (a.pars.total_pop == 500 and b.pars.pop_scale == 5 and a.pars.pop_scale == 5 and b.pars.total_pop == 500):
         fails.append(dict(signature=sig(oracle='pop-scale', form='agree'), what=f'pop_scale=5 -> ({a.pars.total_pop},{a.pars.pop_scale}); total_pop=500 -> ({b.pars.total_pop},{b.pars.pop_scale})'))
+    d = ss.Sim(n_agents=100, total_pop=25, verbose=0); d.init()      # fewer people than agents
+    e = ss.Sim(n_agents=100, pop_scale=0.25, verbose=0); e.init()
+    if not (d.pars.pop_scale == 0.25 and d.pars.total_pop == 25 and e.pars.total_pop == 25 and e.pars.pop_scale == 0.25):
+        fails.append(dict(signature=sig(oracle='pop-scale', form='below-one'), what=f'total_pop=25 with 100 agents -> ({d.pars.total_pop},{d.pars.pop_scale}); pop_scale=0.25 -> ({e.pars.total_pop},{e.pars.pop_scale})'))
     if not (c.pars.pop_scale == 1 and c.pars.total_pop == 100):
         fails.append(dict(signature=sig(oracle='pop-scale', form='default'), what=f'no scale given -> ({c.pars.total_pop},{c.pars.pop_scale})'))
     return fails
@@ -796,6 +1042,21 @@ FINE_TIMELINE_CFGS = [   # a disease AND births on a finer timeline than the sim
          demographics=[dict(type='births', birth_rate=200, unit='year', dt=0.25)]),
 ]
 
+SCENARIO_CFGS = [   # always exercised: fractional factors below and above 1 with births + deaths (cumsum-filled series, rates),
+                   # custom result-declaring modules on their own timeline, everybody dies (n_alive == 0)
+    dict(n_agents=160, rand_seed=7, unit='year', dt=1.0, start=2000, dur=6, scale_form='pop_scale_float', pop_scale=2.5,
+         diseases=[dict(type='sir', beta=0.2, init_prev=0.1, dur_inf=4, p_death=0.1)], networks=[dict(type='erdosrenyi', p=0.05)],
+         demographics=[dict(type='births', birth_rate=60), dict(type='deaths', death_rate=40)],
+         custom=[dict(kind='analyzer', dt_mult=2), dict(kind='intervention', dt_mult=None)]),
+    dict(n_agents=160, rand_seed=8, unit='year', dt=0.5, start=2000, dur=4, scale_form='total_pop_small', total_pop=20,
+         diseases=[dict(type='sis', beta=0.2, init_prev=0.1, dur_inf=4, waning=0.05, dt_mult=2)], networks=[dict(type='static', n_contacts=4)],
+         demographics=[dict(type='pregnancy', fertility_rate=100, burnin=True), dict(type='deaths', death_rate=30)],
+         custom=[dict(kind='intervention', dt_mult=2)]),
+    dict(n_agents=60, rand_seed=9, unit='year', dt=1.0, start=2000, dur=5, scale_form='pop_scale_int', pop_scale=3,
+         diseases=[dict(type='sir', beta=0.9, init_prev=1.0, dur_inf=1, p_death=1.0)], networks=[dict(type='random', n_contacts=4, dur=0)],
+         demographics=[dict(type='deaths', death_rate=1000)]),
+]
+
 EXTRA_CFGS = [   # other disease classes: scale flags of their float results, infection flows
     dict(n_agents=120, rand_seed=4, unit='year', dt=1.0, start=2000, dur=5, scale_form='pop_scale_int', pop_scale=5,
          diseases=[dict(type=t, **kw)], networks=[dict(type='random', n_contacts=4, dur=0)], demographics=[])
@@ -804,9 +1065,9 @@ EXTRA_CFGS = [   # other disease classes: scale flags of their float results, in
 
 
 def search(ctx):
-    for cfg in FINE_TIMELINE_CFGS + EXTRA_CFGS:
+    for cfg in FINE_TIMELINE_CFGS + SCENARIO_CFGS + EXTRA_CFGS:
         try:
-            for f in oracle_sim(copy.deepcopy(cfg), twin=False, check_exports=False):
+            for f in oracle_sim(copy.deepcopy(cfg), twin=(cfg in SCENARIO_CFGS), check_exports=(cfg in SCENARIO_CFGS)):
                 ctx.fail(f['signature'], f['what'], dict(kind='sim', cfg=cfg, signature=f['signature']))
         except impl_errors() as e:
             ctx.fail(sig(oracle='run', error=type(e).__name__), f'sim raised {type(e).__name__}: {e}', dict(kind='sim', cfg=cfg))
